@@ -834,6 +834,16 @@ class CallMixin:
             if key not in sorts._cache:
                 sorts._cache[key] = z3.Function("py_str_join", z3.StringSort(), TList(TStr).sort(), z3.StringSort())
             return SV(TStr, sorts._cache[key](s, L.t))
+        if attr == "split":
+            key = "uf:str_split"
+            if key not in sorts._cache:
+                sorts._cache[key] = z3.Function("py_str_split", z3.StringSort(), z3.StringSort(), TList(TStr).sort())
+            sep = args[0].t if args else z3.StringVal(" ")
+            r = SV(TList(TStr), sorts._cache[key](s, sep))
+            self.ctx.note_ty(r.ty)
+            self.ctx.assume_wf(r)
+            self.ctx.assume(r.ty.len(r.t) >= 1)
+            return r
         if attr == "format":
             return self.ctx.fresh(TStr, "fmt")
         raise Unsupported("str." + attr, node)
